@@ -6,6 +6,7 @@ import EpgVerif.Gen.MathTable
 import EpgVerif.Model.Coll
 import EpgVerif.Model.Shape
 import EpgVerif.Model.Sim
+import EpgVerif.Model.RF
 /-
   Line-protocol driver over the executable model at `K := CF` (DESIGN Appendix A).
   One request per line; floats travel as the decimal of their IEEE-754 bits.
@@ -297,6 +298,16 @@ def step (d : DState) (line : String) : DState × List String :=
   | ["smodify", t1, t2, g, att] =>
       ({ d with items := (Sim.modifyItems (fun (x : CF) => x.re > 0) (fun (x : CF) => x.re == 1.0)
             (optC t1) (optC t2) (optC g) (optC att) d.items.toList).toArray }, [])
+  | "srf" :: rf :: off :: t1 :: t2 :: g :: _n :: rest =>
+      let rec triples : List String → List (RF.Sample CF × CF)
+        | m :: a :: du :: more => (⟨cOfTok m, cOfTok a⟩, cOfTok du) :: triples more
+        | _ => []
+      let tr := triples rest
+      let its := RF.rfpulse (fun (x : CF) => x.re > 0) (fun (x : CF) => x.re == 1.0) (cOfTok rf)
+        (tr.map (·.1)) (tr.map (·.2)) (optC off) (optC t1) (optC t2) (optC g)
+      ({ d with items := d.items ++ its.toArray }, [])
+  | ["sapply"] => ({ d with sm := RF.runItems d.opts d.items.toList d.sm, items := #[] },
+      [s!"dur {bits ((d.items.toList.map Sim.Item.dur).foldl (· + ·) (0 : CF)).re}"])
   | ["simrun"] => ({ d with items := #[], probes := #[] }, simRun d)
   | ["dumpd"] => (d, dumpDiff d)
   | ["dumpj"] => (d, dumpJets d)
